@@ -81,6 +81,12 @@ def small_tree(rng, pl, single=False):
         from harness.common import Blob
         big = ("big.bin", Blob.rand(rng.randrange(1, 40), 110 * pl + rng.choice([0, 1, 777])))
         return [big] if single else [big, ("s", Blob.rand(3, 10))]
+    if rng.random() < 0.07:
+        # nothing but zero-length files ("for all content trees"): no piece at all
+        from harness.common import Blob
+        if single:
+            return [(rng.choice(gen.NAMES), Blob.rand(1, 0))]
+        return [(p, Blob.rand(1, 0)) for p in gen.rel_paths(rng, rng.choice([1, 2, 3]))]
     if single:
         size = rng.choice([1, 100, pl, pl + 5, 3 * pl - 1])
         return [(rng.choice(gen.NAMES), gen.pick_blob(rng, size))]
